@@ -35,7 +35,9 @@ fn async_lattice(tier: Tier, want_probe_only: bool) -> Vec<Cfg> {
     // thorough: all eight (oversampling, interpolation) variants at L = 8, the four
     // interpolations at L = 16, one at L = 64 (control depends on L only through offsets)
     let variant_ok = |l: usize, os: usize, interp: Interp| -> bool {
-        q || l == 8 || (l == 16 && os == 2) || (l == 64 && os == 2 && interp == Interp::Cubic)
+        q || (l == 8 && !(os == 2 && matches!(interp, Interp::Linear | Interp::Nearest)))
+            || (l == 16 && os == 2 && matches!(interp, Interp::Cubic | Interp::Nearest))
+            || (l == 64 && os == 2 && interp == Interp::Cubic)
     };
     let sinc_variants: Vec<(usize, Interp)> = if q {
         vec![(2, Interp::Cubic), (2, Interp::Linear)]
@@ -67,7 +69,7 @@ fn async_lattice(tier: Tier, want_probe_only: bool) -> Vec<Cfg> {
                                 continue;
                             }
                             let mut kernels = vec![Kernel::Probe];
-                            if !want_probe_only && (q || (l == 8 && os == 2)) {
+                            if !want_probe_only && (q || (l == 8 && os == 2 && interp == Interp::Cubic) || (l == 8 && os == 1 && interp == Interp::Linear)) {
                                 kernels.push(Kernel::Dispatch);
                             }
                             for kernel in kernels {
@@ -117,7 +119,7 @@ fn fft_groups(tier: Tier) -> Vec<Vec<Cfg>> {
             let mut g = Vec::new();
             let big = a > 100;
             let chunks: Vec<usize> = if big {
-                vec![64, 1024]
+                vec![64, 200]
             } else {
                 (1..=maxchunk).collect()
             };
@@ -200,12 +202,12 @@ pub fn spec_for(id: &str, tier: Tier, cfg: &Cfg) -> Spec {
     let closing = closes(cfg);
     let bound = if q {
         1
-    } else if closing && cfg.chunk <= 16 {
+    } else if closing && cfg.chunk <= 8 {
         2
     } else {
         1
     };
-    let horizon = if q { [48, 24, 12, 8] } else { [256, 64, 24, 8] };
+    let horizon = if q { [48, 24, 12, 8] } else { [128, 32, 12, 8] };
     let signal = if id == "C10" || id == "C17" {
         Signal::Noise
     } else if cfg.kind.is_sinc() && cfg.kernel != Kernel::Probe {
@@ -317,10 +319,22 @@ impl Check for CtrlCheck {
         "E1 explicit-state deviation-bounded exploration of call histories on the real resampler objects"
     }
     fn n_items(&self, tier: Tier) -> usize {
-        items(tier, self.id).len()
+        items(tier, self.id).len() + if self.id == "C13" { 1 } else { 0 }
     }
     fn run_item(&self, tier: Tier, idx: usize, journal: Option<&JournalFile>) -> Result<Value, String> {
-        let item = items(tier, self.id).into_iter().nth(idx).ok_or("no such item")?;
+        let all = items(tier, self.id);
+        if self.id == "C13" && idx == all.len() {
+            let (n1, mut f1, mut o1) = crate::ctor::run::<f64>("f64");
+            let (n2, f2, o2) = crate::ctor::run::<f32>("f32");
+            f1.extend(f2);
+            o1.extend(o2);
+            return Ok(json!({
+                "label": "constructor argument menu", "states": 1, "transitions": n1 + n2,
+                "outcomes": o1, "found": f1,
+                "samples": [{"constructor_menu": "ratio in {0,-0,-1,-inf,-MIN_POSITIVE,-5e-324}, max relative in {1-1ulp,0.5,0,-1,-inf}, rates (0,b) (a,0) (0,0); all seven types x f32/f64"}],
+            }));
+        }
+        let item = all.into_iter().nth(idx).ok_or("no such item")?;
         let mut acc = Value::Null;
         for cfg in &item.cfgs {
             let spec = spec_for(self.id, tier, cfg);
@@ -359,7 +373,7 @@ impl Check for CtrlCheck {
         let its = items(tier, self.id);
         let ncfg: usize = its.iter().map(|i| i.cfgs.len()).sum();
         cov.insert("configurations".into(), json!(ncfg));
-        cov.insert("deviation_bound_completed".into(), json!(if tier == Tier::Quick { "1" } else { "2 on closing configurations with chunk <= 16, 1 elsewhere" }));
+        cov.insert("deviation_bound_completed".into(), json!(if tier == Tier::Quick { "1" } else { "2 on closing configurations with chunk <= 8, 1 elsewhere" }));
         let mut per_kind: std::collections::BTreeMap<String, (u64, u64)> = Default::default();
         for v in items_v {
             let label = v["label"].as_str().unwrap_or("?");
